@@ -5,7 +5,7 @@
    verdict are regenerated from the source on every run.                                     *)
 From Coq Require Import List Arith Bool ZArith.
 From PV Require Import Base.Exn Base.Values Base.Ann Model.CheckerCfg Model.Checker Spec.Conforms
-  Gen.CheckerTables Proofs.CheckerGood Proofs.CheckerRefine Proofs.CheckerSpec Proofs.CheckerTop.
+  Gen.CheckerTables Proofs.CheckerGood Proofs.CheckerRefine Proofs.CheckerSpec Proofs.CheckerTop Proofs.CheckerRaises.
 Import ListNotations.
 
 Definition cfg := Gen.CheckerTables.checker_cfg.
@@ -31,6 +31,15 @@ Theorem C08_model_exceptions_become_type_check : forall e, In e model_exns ->
   exists r, handle (handlers cfg) e = Raise r /\ derives r PTypeCheckC = true.
 Proof. intros e. exact (handled cfg good e). Qed.
 Print Assumptions C08_model_exceptions_become_type_check.
+
+(* the instance for the MODEL of _is_instance itself (validated against the implementation by the correspondence
+   of every run): every exception the model raises derives from Exception - for every annotation, supported or
+   not, TypeVars and annotation-bound TypeVars included - hence the modelled assert_value_matches_type returns or
+   raises a PedanticException on its whole domain *)
+Theorem C08_model_total : forall ctx a v tv,
+  match fst (assert_matches1 cfg ctx a v tv) with Ok _ => True | Raise r => is_pedantic r = true end.
+Proof. intros ctx a v tv. exact (assert_matches1_contained cfg ctx good a v tv). Qed.
+Print Assumptions C08_model_total.
 
 (* non-vacuity: an inner checker that raises AttributeError / IndexError / RecursionError-like classes *)
 Example ex_inner_raises :
